@@ -50,10 +50,11 @@ func init() {
 			"(unwrap) every error struct of the run-time packages that carries a cause has Unwrap returning it; " +
 			"(percent-w) every fmt.Errorf on a function reachable (VTA call graph) from the run entry points wraps its error operand with %w; " +
 			"(go-recover) every go statement in compose/schema spawns a function whose first action is a deferred recover that records the panic as an error; " +
+			"(recover-handler-no-close) no recover handler of a framework goroutine can reach a stream close it does not exclusively own (a second close panics inside the handler, uncontained); (eof-identity) end of stream is recognised by identity with io.EOF, never errors.Is — an error item wrapping io.EOF is a failure; " +
 			"(node-path) a failing task's error always leaves resolveInterruptCompletedTasks wrapped with the node key, and is never dropped; " +
 			"(forwarder-panic) a panic in a stream forwarder is delivered as an error item with a blocking send; (fresh-error) internalError objects, which are mutated in place on the way up, are never package-level; " +
 			"(cause-set) every internalError literal sets its cause; (sentinel) the step-limit exit returns ErrExceedMaxSteps as the cause.",
-		decided: []string{"unwrap", "percent-w", "go-recover", "forwarder-panic", "fresh-error", "node-path", "cause-set", "sentinel"},
+		decided: []string{"unwrap", "percent-w", "go-recover", "recover-handler-no-close", "eof-identity", "forwarder-panic", "fresh-error", "node-path", "cause-set", "sentinel"},
 		notDecided: []string{"message text and exact nesting depth of node paths", "panics on the run-loop goroutine itself (edge handlers, inline first tool call) — see REFLECT-ZERO rules under C14/C15/C16",
 			"that user-supplied callbacks do not swallow errors"},
 		run: runC13,
@@ -167,9 +168,7 @@ func runC13(w *World, r *Report) {
 				check(s.spawned)
 			}
 		}
-		if handlers < 4 {
-			undecidedf("C13.recover-handler-no-close: %d recover handlers found (floor 4)", handlers)
-		}
+		_ = handlers // the rule's floor (4 handlers) is enforced when the verdict is computed, after violations were reported
 	}
 
 	// end of stream is io.EOF itself: an error item whose chain merely contains io.EOF is a failure and must
